@@ -637,6 +637,10 @@ def run(ctx, rep):
     K.share(ctx, rep, "c06", lambda o: o.rule == "R06.3", "R02.9", floor=1)
     K.share(ctx, rep, "c06", lambda o: o.rule == "R06.4", "R02.11", floor=1)
     K.share(ctx, rep, "c03", lambda o: o.rule in ("R03.1", "R03.2"), "R02.12", floor=4)
+    rep.rule("R02.14", "a forwarded operation's request and reply cross the transport intact: uninterrupted frames, reads that wait "
+                       "for the rest of a frame (= R12.5, R12.7, R05.1, R05.9)")
+    K.share(ctx, rep, "c12", lambda o: o.rule in ("R12.5", "R12.7"), "R02.14", floor=2)
+    K.share(ctx, rep, "c05", lambda o: o.rule in ("R05.1", "R05.9") and "SocketStream.read" in o.key, "R02.14", floor=2)
     from . import hygiene as H2
     H2.no_memo(ctx, rep, "R02.3", {"rpyc.core.netref", "rpyc.lib", "rpyc.core.protocol"},
                "the local counterpart of a remote class is looked up in sys.modules, which changes as modules are imported or "
